@@ -100,9 +100,11 @@ Theorem C06_statement_ref_roundtrip : forall cfg code pre n a id comma more lsem
             e_kind e <> KString -> e_kind e = KStructuredPreExisting /\ e_ref e = Some id.
 Proof. exact stmtA_ref_roundtrip. Qed.
 
-(* NOT proved: that the bytes an edit run writes ARE the rendering of such a statement list (it needs the
-   UTF-8 encode / decode round trip and the chunk arithmetic of C03 at the level of items), and that the
-   directive decision of every statement is unchanged by the inserted tokens. *)
+(* The bytes an edit run writes ARE the rendering of such statements: C03_canonical_rewritten /
+   C13_canonical_rewritten (every statement that lacked a reference becomes `add_token` / `add_kv` of itself, to
+   which (3) applies).  NOT proved: that the rewritten item list again satisfies the side conditions `items_ok`
+   of the canonical language, and that the directive decision of every statement is unchanged by the inserted
+   text (the directive check is a function of the whole text); that link is the fixpoint campaign on the binary. *)
 
 Print Assumptions C06_complete_tree_is_fixpoint.
 Print Assumptions C06_statement_token_roundtrip.
